@@ -178,7 +178,22 @@ pub fn path_case(case: &J) -> J {
             for prefix in [PathPrefix::Event, PathPrefix::Metadata] {
                 let tp = OwnedTargetPath { prefix, path: p.clone() };
                 let ttext = tp.to_string();
-                tgt.push(json!({"pre": enc::prefix_str(prefix), "text": chars_json(&ttext),
+                // the rendered text used as a VRL query expression
+                let vrl = {
+                    let fns = vrl::stdlib::all();
+                    match vrl::compiler::compile(&ttext, &fns) {
+                        Ok(c) => {
+                            let q = &c.program.info().target_queries;
+                            if q.len() == 1 {
+                                json!({"ok": true, "pre": enc::prefix_str(q[0].prefix), "p": segs_json(&q[0].path)})
+                            } else {
+                                json!({"ok": false, "pre": "none", "p": [], "why": "not a single query"})
+                            }
+                        }
+                        Err(_) => json!({"ok": false, "pre": "none", "p": [], "why": "rejected"}),
+                    }
+                };
+                tgt.push(json!({"pre": enc::prefix_str(prefix), "text": chars_json(&ttext), "vrl": vrl,
                                 "parsed": parsed_target(parse_target_path(&ttext)),
                                 "serde": parsed_target(OwnedTargetPath::try_from(ttext.clone()))}));
             }
